@@ -12,6 +12,8 @@
 -/
 import PgGen.C15Quirks
 import PgProofs.Gen
+import PgProofs.GenEvo
+import PgProofs.GenEvoPop
 namespace Pg.C15
 
 /-- Generated obligation: the current source has the repaired shape of `Deduping.recover/_replay`
@@ -305,5 +307,90 @@ example : SweepAtLast (runLive exEnv (.deduping .sweeping 1 1 3 false)
   ⟨3, 1, 5, 0, [(0, [none]), (1, [none]), (2, [none])], by decide⟩
 example : DrawsAtHistory (runLive f34Env f34Algo [.propose, .feedback 0 3]) :=
   ⟨1, 1, 1, 0, [(0, [none])], by decide⟩
+
+/-! ### Evolution -/
+
+/-- Evolution over a Sweeping / Random initialiser (any initial size, ANY reproduction and population
+update operations — they are parameters of `env`): on the repaired source `recover` never raises on a
+persisted history (all metadata assertions hold) and restores `num_proposals`, `num_feedbacks` and the
+POPULATION (every individual with its fitness and metadata, in order) exactly, for every run —
+out-of-order feedback, in-flight proposals, several children per generation and failed proposals
+included.  (The generation counter and the init-phase flag are tied by correspondence and oracle at
+every crash point, with counterexamples F36/F37; they are not proved for all runs.) -/
+theorem C15_recover_evolution (env : Env) (hq : env.q = Quirks.patched) (init : Algo) (hb : IsBase init)
+    (initSize : Option Nat) (run : List Event) :
+    ∃ np nf pop si ini g pend si' ini' g' pend',
+      (runLive env (.evolution init initSize) run).st = .evolution np nf si ini g pop pend
+      ∧ recover env (.evolution init initSize) (setup (.evolution init initSize))
+          (runLive env (.evolution init initSize) run).hist = .ok (.evolution np nf si' ini' g' pop pend') := by
+  obtain ⟨si, ini, g, pop, pend, hst, _, hent, hpop, _, _⟩ := live_evolution_pop env init hb initSize run
+  have hg : env.q.evoInitGenBump = false := by rw [hq]; rfl
+  have ho : env.q.evoProposalOrder = false := by rw [hq]; rfl
+  obtain ⟨g', hloop⟩ := evoRecover_loop_pop env hg (.evolution init initSize)
+    (sortByFeedback (runLive env (.evolution init initSize) run).hist)
+    (fun e he => hent e ((mem_sortByFeedback e _).mp he)) 0 0 (setup init) false 0 [] []
+  rw [hpop] at hloop
+  have htot : RecoverTotal env init := by
+    rcases hb with rfl | ⟨seed, sd, rfl⟩
+    · exact recoverTotal_sweeping env
+    · exact recoverTotal_random env seed sd
+  obtain ⟨si', hsi'⟩ := htot ((runLive env (.evolution init initSize) run).hist.filter isInitFed)
+  have hrec : ∃ ini' g'', recover env (.evolution init initSize) (setup (.evolution init initSize))
+      (runLive env (.evolution init initSize) run).hist
+      = .ok (.evolution (runLive env (.evolution init initSize) run).hist.length
+          (fedCount (runLive env (.evolution init initSize) run).hist) si' ini' g'' pop []) := by
+    simp only [recover, ho, setup, hloop, hsi', Bool.false_eq_true, ↓reduceIte, length_sortByFeedback,
+      Nat.zero_add]
+    exact ⟨_, _, rfl⟩
+  obtain ⟨ini', g'', hrec⟩ := hrec
+  exact ⟨_, _, pop, si, ini, g, pend, si', ini', g'', [], hst, hrec⟩
+
+/-- Corollary in terms of the public counters. -/
+theorem C15_recover_evolution_counts (env : Env) (hq : env.q = Quirks.patched) (init : Algo) (hb : IsBase init)
+    (initSize : Option Nat) (run : List Event) :
+    ∃ s', recover env (.evolution init initSize) (setup (.evolution init initSize))
+            (runLive env (.evolution init initSize) run).hist = .ok s'
+      ∧ s'.np = (runLive env (.evolution init initSize) run).st.np
+      ∧ s'.nf = (runLive env (.evolution init initSize) run).st.nf := by
+  obtain ⟨np, nf, pop, si, ini, g, pend, si', ini', g', pend', h1, h2⟩ :=
+    C15_recover_evolution env hq init hb initSize run
+  exact ⟨_, h2, by rw [h1]; rfl, by rw [h1]; rfl⟩
+
+/-- F35 (pinned source): with out-of-order feedback and `population_update = Last(2)` the recovered
+population contains a different individual than the uninterrupted one; the repaired source agrees. -/
+def f35Env (q : Quirks) : Env :=
+  { space := [0, 1, 2, 3], draw := fun _ _ => 0, hash := fun _ d => d,
+    repro := fun _ _ step => [step % 4], update := fun p _ => p.drop (p.length - 2), q := q }
+
+def f35Algo : Algo := .evolution .sweeping (some 1)
+
+def f35Run : List Event :=
+  [.propose, .feedback 0 4, .propose, .propose, .propose, .feedback 3 8, .feedback 2 3, .feedback 1 5]
+
+def popSummary : Except Err St → Option (Nat × List (Nat × Option Int))
+  | .ok (.evolution _ _ _ _ g pop _) => some (g, pop.map fun it => (it.dna, it.reward))
+  | _ => none
+
+theorem C15_F35_counterexample_pinned :
+    popSummary (.ok (runLive (f35Env .pinned) f35Algo f35Run).st)
+      ≠ popSummary (recover (f35Env .pinned) f35Algo (setup f35Algo) (runLive (f35Env .pinned) f35Algo f35Run).hist) := by
+  decide
+
+theorem C15_F35_fixed :
+    popSummary (.ok (runLive (f35Env .patched) f35Algo f35Run).st)
+      = popSummary (recover (f35Env .patched) f35Algo (setup f35Algo) (runLive (f35Env .patched) f35Algo f35Run).hist) := by
+  decide
+
+/-- F36 (pinned source): recovered while still initialising, `num_generations` is 1 instead of 0. -/
+theorem C15_F36_counterexample_pinned :
+    popSummary (.ok (runLive (f35Env .pinned) (.evolution .sweeping (some 3)) [.propose]).st) = some (0, [])
+    ∧ popSummary (recover (f35Env .pinned) (.evolution .sweeping (some 3)) (setup (.evolution .sweeping (some 3)))
+        (runLive (f35Env .pinned) (.evolution .sweeping (some 3)) [.propose]).hist) = some (1, [])
+    ∧ popSummary (recover (f35Env .patched) (.evolution .sweeping (some 3)) (setup (.evolution .sweeping (some 3)))
+        (runLive (f35Env .patched) (.evolution .sweeping (some 3)) [.propose]).hist) = some (0, []) := by
+  decide
+
+example : IsBase (.random 3 false) := Or.inr ⟨3, false, rfl⟩
+example : (runLive (f35Env .patched) f35Algo f35Run).st.nf = 4 := by decide
 
 end Pg.C15
